@@ -26,7 +26,7 @@ BUDGET = {"quick": 1200, "thorough": 16000}
 MIN_NONTRIVIAL = {"quick": 600, "thorough": 6000}
 REQUIRED_FUNCTIONS = ["utils.py:match_template", "utils.py:to_DiGraph", "program.py:BlackbirdProgram.__call__"]
 FUNCTIONS = REQUIRED_FUNCTIONS + ["utils.py:match_template.<locals>.node_match"]
-REQUIRED_TAGS = ["reordered", "repeated-parameter", "form:bare", "form:negated", "form:affine", "form:divided", "neg:gate", "neg:modes", "neg:modes-permuted", "neg:modes-same-digits", "neg:order", "neg:version", "neg:version-same-value", "neg:target", "edit-in-place-after-match", "second-instantiation-after-match", "value:small-or-large", "tdm", "tdm:repeated-parameter", "typed-or-complex-values"]
+REQUIRED_TAGS = ["reordered", "repeated-parameter", "form:bare", "form:negated", "form:affine", "form:divided", "neg:gate", "neg:modes", "neg:modes-permuted", "neg:modes-same-digits", "neg:order", "neg:version", "neg:version-same-value", "neg:target", "neg:target-removed", "edit-in-place-after-match", "second-instantiation-after-match", "value:small-or-large", "tdm", "tdm:repeated-parameter", "typed-or-complex-values"]
 ASSUMPTIONS = ["per-mode order = order of operations sharing a mode (register arguments are not generated here)", "returned values are compared through the arguments they reproduce; allowed difference per argument a*p+b: 1e-9*|a|*max over the occurrences a_j*p+b_j of p of (|a_j p|+|b_j|)/|a_j|"]
 
 
@@ -114,13 +114,18 @@ def linear_extension(ops, rng):
     return done
 
 
+NO_TARGET = object()
+
+
 def program_with(P, ops, version=None, target=None):
     Q = copy.deepcopy(P)
     Q._operations = ops
     if version is not None:
         Q._version = version
     if target is not None:
-        Q._target["name"] = target
+        Q._target["name"] = None if target is NO_TARGET else target
+        if target is NO_TARGET:
+            Q._target["options"] = {}
     return Q
 
 
@@ -277,6 +282,9 @@ def check_case(ctx, text, vals, tags, witness=None, typed=None):
             return
     # one structural edit
     edits = ["gate", "modes", "version", "target"]
+    if P.target.get("name") is not None:
+        # the program declares no target at all although the template does
+        edits.append("target-removed")
     pairs = [(i, j) for j in range(n) for i in range(j) if set(P.operations[i]["modes"]) & set(P.operations[j]["modes"])
              and not any(set(P.operations[m]["modes"]) & (set(P.operations[i]["modes"]) | set(P.operations[j]["modes"])) for m in range(i + 1, j))
              and (P.operations[i]["op"], P.operations[i]["modes"]) != (P.operations[j]["op"], P.operations[j]["modes"])]
@@ -321,6 +329,8 @@ def check_case(ctx, text, vals, tags, witness=None, typed=None):
         ver = "2.0"
     elif edit == "target":
         tgt = "another_device"
+    elif edit == "target-removed":
+        tgt = NO_TARGET
     else:
         i, j = rng.choice(pairs)
         ops[i], ops[j] = ops[j], ops[i]
@@ -335,7 +345,7 @@ def check_case(ctx, text, vals, tags, witness=None, typed=None):
             if ver is not None:
                 Q0._version = ver
             if tgt is not None:
-                Q0._target["name"] = tgt
+                Q0._target["name"] = None if tgt is NO_TARGET else tgt
             Q = Q0
             tags = set(tags) | {"edit-in-place-after-match"}
         except Exception:
